@@ -24,6 +24,9 @@ import reduce as R  # noqa: E402
 import run_c01  # noqa: E402
 
 
+TRACING = ["verbose-all"]
+
+
 def observe(m, args_by_entry, fuel=run_c01.FUEL):
     """-> list of (kind, detail) failures of module m on the given argument values"""
     src = pp.pp_modules(m)
@@ -36,7 +39,7 @@ def observe(m, args_by_entry, fuel=run_c01.FUEL):
         enc = [[M.value_to_json(v, t, adts) for v, t in zip(tup, types)] for tup in vals]
         exp[e.fn.name] = [interp.run(m, e, list(tup), fuel) for tup in vals]
         ents.append({"name": e.fn.name, "args": enc})
-    r = drv.run_one(src, ents)
+    r = drv.run_one(src, ents, tracings=tuple(TRACING))
     out = []
     if "runs" not in r:
         return [("died", json.dumps(r)[:200])]
@@ -71,9 +74,11 @@ def main():
     ap.add_argument("--include-known", action="store_true")
     ap.add_argument("--allow-hazard", action="store_true")
     ap.add_argument("--focus", default=None)
+    ap.add_argument("--tracing", default="verbose-all")
     ap.add_argument("--kind", default=None, help="restrict to this failure kind (compile_panic, disagree, machine_panic, rejected)")
     a = ap.parse_args()
     opts = {"allow_hazard": a.allow_hazard, "include_known": a.include_known, "focus": a.focus}
+    TRACING[0] = a.tracing
     c = run_c01.build_case(a.seed, a.index, a.args, a.size, opts)
     m = c["module"]
     vals = {e["name"]: e["values"] for e in c["entries"]}
